@@ -78,6 +78,8 @@ structure Pyd where
   useDefaultKwarg : Bool
   /-- some `key=repr(value)` argument other than `default_factory` is written -/
   otherArgs : Bool
+  /-- one of them sorts before `default_factory` (`alias=`, `const=`, …: `sorted(field_arguments)`) -/
+  keyBeforeFactory : Bool
   /-- `self.default is not None` -/
   defaultNotNone : Bool
   /-- `data["default_factory"]` (from `extras`) -/
@@ -107,7 +109,9 @@ are NOT written (`_process_annotated_field_arguments` returns the keyword argume
 def Pyd.str (s : Pyd) : Out :=
   if !s.hasArgs && s.factory == .none then
     (if s.nullable && s.required then ⟨.ellipsisOnly, [nField]⟩ else ⟨.empty, []⟩)
-  else if s.useAnnotated then ⟨.call .args, [nField]⟩
+  else if s.useAnnotated then
+    -- a required member keeps `default_factory='list'` (a `repr`: no name) among the sorted keyword arguments
+    ⟨.call (if s.required && s.extrasFactory.isSome && !s.keyBeforeFactory then .factory else .args), [nField]⟩
   else if s.required then ⟨.call .ellipsis, [nField]⟩
   else if s.factory != .none then ⟨.call .factory, nField :: s.factory.names⟩
   else ⟨.call .default, [nField]⟩
